@@ -303,6 +303,11 @@ func (p *Program) declareFamily(fd *FamilyDecl, pkgName string) error {
 	case "string":
 		fam.ValSort = SBytes
 		fam.Enc = "raw"
+	case "str":
+		fam.ValSort = SStr
+		if fam.Enc == "" {
+			fam.Enc = "proto"
+		}
 	case "bytes":
 		fam.ValSort = SBytes
 		fam.Enc = "raw"
@@ -330,7 +335,7 @@ func (p *Program) declareFamily(fd *FamilyDecl, pkgName string) error {
 		}
 	}
 	// key sorts from the key function's signature
-	if strings.HasPrefix(fd.KeyFunc, "global:") {
+	if strings.HasPrefix(fd.KeyFunc, "global:") || strings.HasPrefix(fd.KeyFunc, "const:") {
 		fam.KeyFunc = fd.KeyFunc
 	} else {
 		fn := p.findFunc(fd.KeyFunc)
